@@ -17,34 +17,39 @@ Proof.
 Qed.
 
 (* the instant (seconds resolution) survives compose -> parse in a field of 4 or 8 bytes; any suffix may follow *)
-Lemma ts_roundtrip_seconds w s b p sfx : In w [4; 8] -> 0 <= s < 4294967296 -> s <> 2 ^ (8 * w) - 1 ->
+Lemma ts_roundtrip_seconds w s b p sfx : In w [4; 8] -> 0 <= s <= dt_max -> s < 256 ^ w -> s <> 2 ^ (8 * w) - 1 ->
   compose_timestamp false w (Some {| secs := s; micros := 0 |}) = Ok b ->
   parse_timestamp false w (p ++ b ++ sfx) (zlen p) = Ok (Some {| secs := s; micros := 0 |}, w).
 Proof.
-  intros Hw Hs Hne Hc. cbn [compose_timestamp secs] in Hc.
+  intros Hw Hs Hfit Hne Hc. cbn [compose_timestamp secs] in Hc.
   assert (Hw' : In w widths) by (cbn in Hw |- *; destruct Hw as [<-|[<-|[]]]; auto 6).
-  assert (Hr : 0 <= s < 256 ^ w).
-  { cbn in Hw; destruct Hw as [<-|[<-|[]]]; [change (256 ^ 4) with 4294967296|change (256 ^ 8) with 18446744073709551616]; lia. }
+  assert (Hr : 0 <= s < 256 ^ w) by lia.
   unfold parse_timestamp. rewrite (parse_compose_numeric Network w s b p sfx Hw' Hr Hc). cbn [bind].
-  destruct (Z.eqb_spec s (2 ^ (8 * w) - 1)); [contradiction|]. rewrite land_mask32 by lia. reflexivity.
+  destruct (Z.eqb_spec s (2 ^ (8 * w) - 1)); [contradiction|].
+  destruct (Z.ltb_spec dt_max s); [lia|]. reflexivity.
 Qed.
 
 (* millisecond resolution (8-byte field, as used for signed certificate timestamps) *)
-Lemma ts_roundtrip_millis s ms b p sfx : 0 <= s < 4294967296 -> 0 <= ms < 1000 ->
+Lemma ts_roundtrip_millis s ms b p sfx : 0 <= s <= dt_max -> 0 <= ms < 1000 ->
   compose_timestamp true 8 (Some {| secs := s; micros := ms * 1000 |}) = Ok b ->
   parse_timestamp true 8 (p ++ b ++ sfx) (zlen p) = Ok (Some {| secs := s; micros := ms * 1000 |}, 8).
 Proof.
   intros Hs Hms Hc. cbn [compose_timestamp secs micros] in Hc.
   rewrite Z.div_mul in Hc by lia.
   assert (Hw' : In 8 widths) by (cbn; auto 6).
-  assert (Hr : 0 <= s * 1000 + ms < 256 ^ 8) by (change (256 ^ 8) with 18446744073709551616; lia).
+  assert (Hr : 0 <= s * 1000 + ms < 256 ^ 8) by (change (256 ^ 8) with 18446744073709551616; unfold dt_max in Hs; lia).
   unfold parse_timestamp. rewrite (parse_compose_numeric Network 8 _ b p sfx Hw' Hr Hc). cbn [bind].
   change (2 ^ (8 * 8) - 1) with 18446744073709551615.
-  destruct (Z.eqb_spec (s * 1000 + ms) 18446744073709551615); [lia|].
+  destruct (Z.eqb_spec (s * 1000 + ms) 18446744073709551615); [unfold dt_max in Hs; lia|].
   replace ((s * 1000 + ms) / 1000) with s by (rewrite Z.div_add_l by lia; rewrite Z.div_small by lia; lia).
   replace ((s * 1000 + ms) mod 1000) with ms by (rewrite Z.add_comm, Z.mod_add by lia; rewrite Z.mod_small by lia; reflexivity).
-  rewrite land_mask32 by lia. reflexivity.
+  destruct (Z.ltb_spec dt_max s); [lia|]. reflexivity.
 Qed.
+
+(* the pinned parser masked the seconds: 2^32 came back as the epoch *)
+Lemma ts_orig_mask_refuted :
+  parse_timestamp_orig false 8 (be_enc 8 4294967296) 0 = Ok (Some {| secs := 0; micros := 0 |}, 8).
+Proof. vm_compute. reflexivity. Qed.
 
 (* the "forever" sentinel round-trips in the width of the field *)
 Lemma ts_roundtrip_none msf w b p sfx : In w [4; 8] ->
